@@ -50,12 +50,14 @@ PROPS["C18"] = {
         {"test": "^TestJitterBufferModel$", "checks": 6000, "steps": 60, "timeout": 300},
         {"test": "^TestPriorityQueueModel$", "checks": 6000, "steps": 60, "timeout": 300},
         {"test": "^TestInterceptorBytes$", "checks": 400, "timeout": 300},
+        {"test": "^TestClearAfterLargeFill$", "checks": 150, "timeout": 300},
     ],
     "thorough": [
         {"test": "^TestRegress", "timeout": 120},
         {"test": "^TestJitterBufferModel$", "checks": 80000, "steps": 80, "shards": 8, "timeout": 900},
         {"test": "^TestPriorityQueueModel$", "checks": 100000, "steps": 80, "shards": 4, "timeout": 900},
         {"test": "^TestInterceptorBytes$", "checks": 5000, "shards": 4, "timeout": 900},
+        {"test": "^TestClearAfterLargeFill$", "checks": 4000, "shards": 4, "timeout": 900},
     ],
 }
 
